@@ -30,7 +30,7 @@ def monitor(rep, idx, c):
     loops = [L for L in c.t.loops.values()
              if L.kind == 'gen' and c.norm(L.iter) == c.parse("self.src.event_map.sources()")]
     if len(loops) != 1:
-        rep.bad("C13.3", site, "loop over self.src.event_map.sources()", f"found {len(loops)} such loops")
+        rep.unk("C13.3", site, "loop over self.src.event_map.sources()", f"found {len(loops)} such loops")
         return
     L = loops[0]
     sub, k = ('item', L.id, (0,)), ('item', L.id, (1,))
